@@ -435,6 +435,84 @@ print(json.dumps({"diff": diff[:10], "entries": len(before), "calls": 2 * len(ba
 """
 
 
+_LEGACY_CHILD = r"""
+import json, warnings
+warnings.filterwarnings("ignore")
+import numpy as onp
+import autograd
+from autograd import grad
+
+def factory(k):
+    # primitives built by a factory share module and qualified name of their raw function
+    @autograd.primitive
+    def prim(x, y):
+        return k * x * x * y + y * y * y
+    return prim
+
+problems = []
+x0, y0 = 1.5, -0.5
+def fresh(k, which):
+    p = factory(k)
+    p.defgrad(lambda ans, x, y: lambda g: g * k * 2.0 * x * y)
+    p.defgrad(lambda ans, x, y: lambda g: g * (k * x * x + 3.0 * y * y), argnum=1)
+    return float(grad(p, which)(x0, y0))
+ref = {(k, w): fresh(k, w) for k in (1.0, 3.0) for w in (0, 1)}
+for (k, w), v in ref.items():
+    want = k * 2.0 * x0 * y0 if w == 0 else k * x0 * x0 + 3.0 * y0 * y0
+    if abs(v - want) > 1e-12:
+        problems.append("fresh registration: k=%r argnum %d -> %r, closed form %r" % (k, w, v, want))
+# interleaved registration of two same-named primitives (what two modules built from one template do)
+a, b = factory(1.0), factory(3.0)
+a.defgrad(lambda ans, x, y: lambda g: g * 1.0 * 2.0 * x * y)
+b.defgrad(lambda ans, x, y: lambda g: g * 3.0 * 2.0 * x * y)
+a.defgrad(lambda ans, x, y: lambda g: g * (1.0 * x * x + 3.0 * y * y), argnum=1)
+b.defgrad(lambda ans, x, y: lambda g: g * (3.0 * x * x + 3.0 * y * y), argnum=1)
+for nm, p, k in (("a", a, 1.0), ("b", b, 3.0)):
+    for w in (0, 1):
+        v = float(grad(p, w)(x0, y0))
+        if abs(v - ref[(k, w)]) > 1e-12:
+            problems.append("after interleaved registrations grad(%s, %d) = %r, alone it is %r" % (nm, w, v, ref[(k, w)]))
+# a later same-named primitive with a rule for argument 0 only must not inherit an earlier one's rule for argument 1
+c = factory(5.0)
+c.defgrad(lambda ans, x, y: lambda g: g * 5.0 * 2.0 * x * y)
+try:
+    v = grad(c, 1)(x0, y0)
+    problems.append("a primitive without a rule for argument 1 returned %r instead of raising (stale rule of an earlier primitive?)" % (v,))
+except Exception:
+    pass
+# same through the defvjp flavour with keyword arguments
+d = factory(2.0)
+d.defvjp(lambda g, ans, vs, gvs, x, y: g * 2.0 * 2.0 * x * y, argnum=0)
+v = float(grad(d, 0)(x0, y0))
+if abs(v - 2.0 * 2.0 * x0 * y0) > 1e-12:
+    problems.append("defvjp flavour: %r" % v)
+print(json.dumps({"problems": problems[:6]}))
+"""
+
+
+def legacy_registration_probe():
+    """the deprecated per-argnum registration API (f.defgrad / f.defvjp on primitives made with autograd.primitive): the rules
+    of one primitive do not depend on which rules were registered for OTHER primitives before (same-named raw functions
+    from a factory, interleaved registrations, a later primitive with fewer rules)"""
+    from .. import runner
+
+    env = dict(os.environ)
+    env["PYTHONPATH"] = runner.REPO
+    p = subprocess.run([sys.executable, "-c", _LEGACY_CHILD], env=env, capture_output=True, text=True, timeout=300)
+    key = "HISTORY legacy registration API | gradients of factory-built primitives after interleaved / partial registrations equal those of a fresh registration"
+    r = {"key": key, "prim": "legacy", "paths": 12, "queries": 0, "validated": 0, "verdicts": {}}
+    if p.returncode != 0:
+        r["status"], r["detail"] = "error", "child failed: " + p.stderr[-300:]
+        return [r]
+    d = json.loads(p.stdout.strip().splitlines()[-1])
+    if d["problems"]:
+        r["status"], r["detail"] = "violation", "; ".join(d["problems"])[:600]
+        r["cex"] = {"mode": "history", "prim": "__legacy__", "config": "legacy"}
+    else:
+        r["status"], r["detail"], r["validated"] = "holds", "", 12
+    return [r]
+
+
 def global_state_probe():
     """interpreter-wide state owned by the library - module-level lists / dicts / sets / arrays, class attributes, MUTABLE
     DEFAULT ARGUMENTS of every function and method under autograd.*, NumPy's error state, the warnings filters - is the same
@@ -462,6 +540,12 @@ def global_state_probe():
 
 
 def replay(prim):
+    if prim == "__legacy__":
+        rs = legacy_registration_probe()
+        bad = [r for r in rs if r["status"] == "violation"]
+        for r in bad:
+            print(r["detail"])
+        return bool(bad)
     if prim == "__globals__":
         rs = global_state_probe()
         bad = [r for r in rs if r["status"] == "violation"]
